@@ -122,6 +122,37 @@ MUTANTS = [
      "        for i in range(_REGISTER_BROADCASTS):\n            if i != 0:\n                await asyncio.sleep(millis_to_seconds(interval))\n",
      "        for i in range(1):\n            if i != 0:\n                await asyncio.sleep(millis_to_seconds(interval))\n"),
     ("c07-startup-single-query", "C07", "_services/browser.py", "STARTUP_QUERIES = 4", "STARTUP_QUERIES = 1"),
+    # reversals of the repairs made in rounds l-n
+    ("c13-history-keeps-last-asking-only", "C13", "_history.py",
+     "        kept.append((now, known_answers))\n        self._history[question] = kept\n",
+     "        self._history[question] = [(now, known_answers)]\n"),
+    ("c13-all-known-answers-per-question", "C13", "_handlers/query_handler.py",
+     "{record for record in known_answers_set if question.answered_by(record)}", "known_answers_set"),
+    ("c11-legacy-query-joins-pending-train", "C11", "_listener.py",
+     "        if port != _MDNS_PORT:\n", "        if False and port != _MDNS_PORT:\n"),
+    ("c04-other-classes-cached", "C04", "_handlers/record_manager.py",
+     "            if record.class_ != _CLASS_IN:\n                continue\n", ""),
+    ("c15-browser-type-as-spelled", "C15", "_services/browser.py",
+     "                for key in cached_possible_types(pointer.key):", "                for key in cached_possible_types(pointer.name):"),
+    ("c07-replay-compares-spelling", "C07", "_dns.py",
+     "self.type in (rec.type, _TYPE_ANY) and self.key == rec.key", "self.type in (rec.type, _TYPE_ANY) and self.name == rec.name"),
+    ("c07-no-purge-before-replay", "C07", "_handlers/record_manager.py",
+     "            expired = self.cache.async_expire(now)\n            if expired:", "            expired = []\n            if expired:"),
+    ("c04-pending-callbacks-not-taken-out", "C04", "_services/browser.py",
+     "        self._pending_handlers = {}\n        for pending in pending_handlers.items():\n            self._fire_service_state_changed_event(pending)\n",
+     "        for pending in pending_handlers.items():\n            self._fire_service_state_changed_event(pending)\n        self._pending_handlers.clear()\n"),
+    ("c12-held-train-queued-from-first-packet", "C12", "_handlers/query_handler.py",
+     "        now = first_packet.now if len(packets) == 1 and not first_packet.truncated else current_time_millis()",
+     "        now = first_packet.now"),
+    ("c08-announcements-outlive-withdrawal", "C08", "_core.py",
+     "                if ttl != 0 and self.registry.async_get_info_name(info.key) is not info:", "                if False:"),
+    ("c02-labels-counted-per-run", "C02", "_protocol/incoming.py",
+     "                if labels_before + len(labels) > MAX_DNS_LABELS:", "                if len(labels) > MAX_DNS_LABELS:"),
+    ("c10-armed-query-kept-on-the-late-side", "C10", "_services/browser.py",
+     "            if 0 <= refresh_time_millis - current.when_millis <= self._min_time_between_queries_millis:",
+     "            if -self._min_time_between_queries_millis <= refresh_time_millis - current.when_millis <= self._min_time_between_queries_millis:"),
+    ("c15-cache-removal-raises-again", "C15", "_cache.py",
+     "    entries = cache.get(key)\n    if entries is None:", "    entries = cache[key]\n    if entries is None:"),
 ]
 
 
